@@ -39,6 +39,50 @@ type c17In struct {
 	RootOnly bool `json:"root_only,omitempty"`
 	// RootObj: the input document is {"root": {"t": rows}} — its only key is "root" and holds an OBJECT
 	RootObj bool `json:"root_obj,omitempty"`
+	// Data (meta only): a degenerate input document instead of the table document — "nil" (a nil map: what
+	// json.Unmarshal of `null` leaves in a map[string]any), "empty" ({}), "root-null" ({"root": null}), "root-empty"
+	// ({"root": {}}), "t-null" ({"t": null}), "t-empty" ({"t": []}). Wrapped() must make each of them addressable under
+	// root exactly like the explicit {"root": input}.
+	Data string `json:"data,omitempty"`
+}
+
+// c17Degenerate: the degenerate documents by name
+func c17DegenerateDoc(name string) (map[string]any, bool) {
+	switch name {
+	case "nil":
+		return nil, true
+	case "empty":
+		return map[string]any{}, true
+	case "root-null":
+		return map[string]any{"root": nil}, true
+	case "root-empty":
+		return map[string]any{"root": map[string]any{}}, true
+	case "t-null":
+		return map[string]any{"t": nil}, true
+	case "t-empty":
+		return map[string]any{"t": []any{}}, true
+	}
+	return nil, false
+}
+
+var c17DegenerateNames = []string{"nil", "empty", "root-null", "root-empty", "t-null", "t-empty"}
+
+// queries that look at the top level of the document (they succeed on documents without any table)
+func c17TopLevelDocs() [][]c17Seg {
+	raw := func(s string) c17Seg { return c17Seg{K: "raw", S: s} }
+	return [][]c17Seg{
+		{raw("SELECT * FROM dual")},
+		{raw("SELECT * FROM "), {K: "dq", S: "root"}},
+		{raw("SELECT * FROM root")},
+		{raw("SELECT 1 AS one FROM "), {K: "bt", S: "root"}},
+		{raw("SELECT 1 AS "), {K: "dq", S: "o[n]e"}, raw(", "), {K: "open"}, raw("1, "), {K: "sq", S: "x]"}, {K: "close"}, raw(" AS arr FROM dual")},
+		{raw("SELECT (SELECT 1 AS x FROM "), {K: "bt", S: "<-root"}, raw(") AS sub FROM dual")},
+		{raw("SELECT root AS r, t AS t FROM dual")},
+		{raw("SELECT "), {K: "open"}, raw("root, "), {K: "open"}, raw("t"), {K: "close"}, {K: "close"}, raw(" AS a FROM dual")},
+		{raw("SELECT * FROM t")},
+		{raw("SELECT * FROM root.root")},
+		{raw("SELECT * FROM root.t")},
+	}
 }
 
 type propC17 struct{}
@@ -54,7 +98,7 @@ func (propC17) InputType() string      { return "C17Run.c17_in" }
 func (propC17) ObsType() string        { return "C17Run.c17_obs" }
 func (propC17) Exhaustive(string) bool { return false }
 func (propC17) Rule() string {
-	return "scan cases (documents over the alphabet {\" ' ` \\ [ ] space a} rendered in PG and MySQL quoting, nesting to depth 4, ~12% ill-formed bodies, ~12% unbalanced; every string of length <=3 (thorough: <=4) over {\" ' ` \\ [ ] a}; every body of length <=2 (thorough: <=3) inside every quote kind followed by a bracket-sensitive tail; random bytes) are non-trivial when the text contains a quote or bracket byte; meta cases (all 8 option sets) are non-trivial when both executions returned rows; distinct = distinct inputs"
+	return "scan cases (documents over the alphabet {\" ' ` \\ [ ] space a} rendered in PG and MySQL quoting, nesting to depth 4, ~12% ill-formed bodies, ~12% unbalanced; every string of length <=3 (thorough: <=4) over {\" ' ` \\ [ ] a}; every body of length <=2 (thorough: <=3) inside every quote kind followed by a bracket-sensitive tail; random bytes) are non-trivial when the text contains a quote or bracket byte; unquoted comment openers (-- a--1 # /* //) before / inside / after brackets; meta cases (all 8 option sets; table documents, root-only documents, degenerate documents nil / {} / root:null / t:[] under queries that look at the top level; subtraction of a negative operand written without blanks next to idiomatic arrays) are non-trivial when both executions returned rows; distinct = distinct inputs"
 }
 
 // ---------------- rendering (Go mirror of Spec/LexDoc.v render) ----------------
@@ -398,6 +442,9 @@ func c17RawBody(r *Rand) string {
 			b.WriteByte(Pick(r, []byte{'a', ' ', '\\', ','}))
 		default:
 			b.WriteByte(Pick(r, []byte{' ', 'a', ',', '1', '(', ')', 'A'}))
+		case 1:
+			// characters that open a comment in SQL but are outside the quote / bracket alphabet of the two scanners
+			b.WriteString(Pick(r, []string{"-", "--", "a--1", "-- ", "#", "/*", "*/", "//", "- -", "---"}))
 		}
 	}
 	if r.Chance(5) {
@@ -512,7 +559,7 @@ func c17AliasName(r *Rand, pg bool) string {
 func c17MetaExpr(r *Rand, depth int, doc *[]c17Seg) {
 	switch k := r.Intn(6); {
 	case k == 0:
-		*doc = append(*doc, c17Seg{K: "raw", S: Pick(r, []string{"1", "2", "a", "b", "a + 1"})})
+		*doc = append(*doc, c17Seg{K: "raw", S: Pick(r, []string{"1", "2", "a", "b", "a + 1", "a--1", "5--2", "a - -1", "a-1", "-a", "2*a", "a/2"})})
 	case k == 1:
 		*doc = append(*doc, c17Seg{K: "sq", S: c17SqBody(r)})
 	case k == 2:
@@ -627,6 +674,49 @@ func (propC17) Generate(r *Rand, tier string) []Case {
 				for _, q := range []string{"pg", "my"} {
 					add(c17In{Kind: "doc", Q: q, Doc: doc}, "stream:probe-comment-openers")
 				}
+			}
+		}
+	}
+	// (2e) comment openers OUTSIDE quotes (a double minus is a comment only when white space follows: a--1 is a - (-1)),
+	// before, between, inside and after brackets, on the same line and on the line before: neither scanner knows
+	// comments, so every bracket is array syntax wherever it stands
+	for _, op := range []string{"--", "a--1", "5--2", "-", "---", "-- ", "--\n", "#", "/*", "*/", "//", "-1"} {
+		x := c17Seg{K: "raw", S: op}
+		sp := c17Seg{K: "raw", S: " "}
+		cm := c17Seg{K: "raw", S: ", "}
+		for _, doc := range [][]c17Seg{
+			{x, sp, {K: "open"}, {K: "raw", S: "a"}, {K: "close"}},
+			{{K: "open"}, x, cm, {K: "raw", S: "b"}, {K: "close"}},
+			{{K: "open"}, {K: "raw", S: "a"}, {K: "close"}, sp, x, sp, {K: "open"}, {K: "sq", S: "z]"}, {K: "close"}},
+			{x, {K: "raw", S: " AS y, "}, {K: "open"}, {K: "raw", S: "a, "}, {K: "open"}, {K: "raw", S: "b,"}, {K: "sq", S: "z"}, {K: "close"}, {K: "close"}},
+			{x, {K: "raw", S: "\n"}, {K: "open"}, {K: "raw", S: "a"}, {K: "close"}},
+			{x, sp, {K: "dq", S: "c]"}, {K: "open"}, {K: "bt", S: "d["}, {K: "close"}, x},
+		} {
+			for _, q := range []string{"pg", "my"} {
+				add(c17In{Kind: "doc", Q: q, Doc: doc}, "stream:probe-unquoted-comment-openers")
+			}
+		}
+	}
+	// ... and through the engine: the idiomatic spelling and the ARRAY() spelling of the same query agree
+	for _, e := range []string{"a--1", "5--2", "a - -1", "a-1", "a--1-1", "1 - a", "a---1"} {
+		raw := func(s string) c17Seg { return c17Seg{K: "raw", S: s} }
+		for _, doc := range [][]c17Seg{
+			{raw("SELECT "), {K: "open"}, raw(e + ", b"), {K: "close"}, raw(" AS y FROM t")},
+			{raw("SELECT " + e + " AS y, "), {K: "open"}, raw("a, "), {K: "open"}, raw("b, "), {K: "sq", S: "z"}, {K: "close"}, {K: "close"}, raw(" AS arr FROM t")},
+			{raw("SELECT a AS y FROM t WHERE " + e + " > 2 AND ELEMENTAT("), {K: "open"}, raw("a, 0"), {K: "close"}, raw(", 0) = a")},
+			{raw("SELECT "), {K: "open"}, raw("a"), {K: "close"}, raw(" AS y, " + e + " AS "), {K: "dq", S: "z]"}, raw(" FROM t")},
+		} {
+			for p := 0; p < 2; p++ {
+				add(c17In{Kind: "meta", Doc: doc, Pg: p == 1, Idiom: true}, "stream:meta", "data:unquoted-double-minus")
+			}
+		}
+	}
+	// (2f) degenerate documents (nil map, {}, root: null ...) x queries that look at the top level x option sets
+	for _, name := range c17DegenerateNames {
+		for _, doc := range c17TopLevelDocs() {
+			// Wrapped() alone, Wrapped() with both dialect options, and one option set without Wrapped()
+			for _, o := range []int{1, 7, 2 * r.Intn(4)} {
+				add(c17In{Kind: "meta", Doc: doc, Wrapped: o&1 != 0, Pg: o&2 != 0, Idiom: o&4 != 0, Data: name}, "stream:meta", "data:degenerate", "data:"+name)
 			}
 		}
 	}
@@ -887,6 +977,16 @@ func (propC17) Observe(raw json.RawMessage) (Observed, error) {
 		if in.RootObj {
 			dataA = map[string]any{"root": deepCopy(c17Data)}
 			dataB = map[string]any{"root": deepCopy(c17Data)}
+		}
+		if in.Data != "" {
+			if in.RootOnly || in.RootObj {
+				return Observed{}, fmt.Errorf("data excludes root_only / root_obj")
+			}
+			var ok bool
+			if dataA, ok = c17DegenerateDoc(in.Data); !ok {
+				return Observed{}, fmt.Errorf("bad data %q", in.Data)
+			}
+			dataB, _ = c17DegenerateDoc(in.Data)
 		}
 		if in.Wrapped {
 			dataB = map[string]any{"root": dataB}
